@@ -176,6 +176,41 @@ def extra_item(item, rec):
                           "run(%r) raises %s %s: %s" % (script, out[1], out[2], out[4][:200]), {"kind": "extra", "label": label})
 
 
+def mapper_keywords():
+    """string constants the engine's DuckDB-error mapper looks for in error messages (read from the working tree): failing
+    user values / component names containing them must not derail the mapping"""
+    import ast as pyast
+    import os
+    src = open(os.path.join(harness.REPO, "src/vtlengine/duckdb_transpiler/io/_execution.py"), encoding="utf-8").read()
+    words = set()
+    for node in pyast.walk(pyast.parse(src)):
+        if isinstance(node, pyast.Compare) and any(isinstance(o, pyast.In) for o in node.ops):
+            if isinstance(node.left, pyast.Constant) and isinstance(node.left.value, str) and 2 < len(node.left.value) < 40:
+                words.add(node.left.value)
+    return sorted(words)
+
+
+def injection_item(item, rec):
+    """failing casts whose VALUE or whose COMPONENT NAME contains a word the error mapper pattern-matches on"""
+    words = item
+    V = harness.boot()
+    import re
+    for w in words:
+        ident = re.sub(r"[^A-Za-z0-9]+", "_", w).strip("_") or "x"
+        for target in ("integer", "number", "date", "boolean"):
+            for name, val in (("Me_1", "some %s here" % w), ("Me_%s" % ident, "n/a")):
+                ds = DS("DS_1", [("Id_1", "Integer", ID), (name, "String", ME)], [{"Id_1": 1, name: "10"}, {"Id_1": 2, name: val}])
+                script = "DS_r <- DS_1[calc Me_9 := cast(%s, %s)];" % (name, target)
+                out = refbase.run(script, [ds])
+                cls = "returns" if out[0] == "ok" else "%s:%s" % (out[1], out[2])
+                rec.case(("inject", target, name == "Me_1", cls), cls, sample={"script": script, "value": val, "outcome": cls} if out[0] != "ok" else None)
+                if out[0] == "err" and (monitors.mon32(out) or monitors.mon26(out)):
+                    where = "value" if name == "Me_1" else "component-name"
+                    rec.violation("C32:cast-unparsable-%s:%s-contains-error-mapper-keyword:%s" % (target, where, monitors.mon32(out) or monitors.mon26(out)),
+                                  "run(%r) with %s=%r raises %s %s: %s" % (script, name, val, out[1], out[2], out[4][:200]),
+                                  {"kind": "inject", "word": w})
+
+
 def corpus_item(item, rec):
     V = harness.boot()
     for r in item:
@@ -214,6 +249,10 @@ class Check:
         T = table()
         harness.pmap(table_item, [[t] for t in harness.seeded_order(T, seed)], rec)
         harness.pmap(extra_item, list(harness.chunks(EXTRA, 4)), rec)
+        kws = mapper_keywords()
+        if not kws:
+            rec.tool_error("no keyword extracted from the error mapper (moved?)")
+        harness.pmap(injection_item, list(harness.chunks(kws, 3)), rec)
         ok = corpus.load(fn="run", outcome="ok")
         bad = corpus.load(fn="run", outcome="fail")
         rs = bad + (ok if tier == "thorough" else ok[::6])
@@ -224,6 +263,8 @@ class Check:
         rec = harness.Recorder()
         if data["kind"] == "table":
             table_item([t for t in table() if t[0] == data["label"]], rec)
+        elif data["kind"] == "inject":
+            injection_item([data["word"]], rec)
         elif data["kind"] == "extra":
             extra_item([e for e in EXTRA if e[0] == data["label"]], rec)
         else:
